@@ -17,9 +17,10 @@ def slug(c):
     return slug_of(c)
 
 
-def gen_classes(rng):
-    n = rng.choice([1, 2, 3, 3, 4, 5, 6])
+def gen_classes(rng, n_docs=1):
+    n = rng.choice([1, 2, 3, 3, 4, 5, 6, 8])
     classes, slugs = [], set()
+    proto = {pn: gen_decl(rng, pn, rich=rng.random() < 0.15, objects='plain') for pn in PARAMS}
     for i in range(n):
         for _ in range(20):
             c = dict(id=i, cname=f'K{i:02d}', group=rng.choice(GROUPS), name=rng.choice(TASK_NAMES), params=[],
@@ -32,12 +33,20 @@ def gen_classes(rng):
         if rng.random() < 0.06:
             c['abstract'] = True
         for pn in rng.sample(PARAMS, rng.choice([0, 0, 1, 1, 2])):
-            c['params'].append(gen_decl(rng, pn, rich=rng.random() < 0.15, objects='plain'))
-        earlier = [k for k in classes if not k.get('abstract')]
-        for _ in range(rng.choice([0, 0, 1, 1, 2])):
+            d = dict(proto[pn]) if rng.random() < 0.85 else gen_decl(rng, pn, rich=False, objects='plain')
+            if rng.random() < 0.3:
+                d['ignore'], d['dropdef'] = rng.random() < 0.3, rng.random() < 0.5
+            c['params'].append(d)
+        c['doc'] = rng.randrange(n_docs)
+        earlier = [k for k in classes if not k.get('abstract') and (k['doc'] == c['doc'] or rng.random() < 0.1)]
+        chosen = set()
+        for _ in range(rng.choice([0, 0, 1, 1, 2, 3])):
             if not earlier:
                 break
             t = rng.choice(earlier)
+            if t['id'] in chosen and rng.random() < 0.9:
+                continue
+            chosen.add(t['id'])
             r = rng.random()
             if r < 0.45:
                 ref = {'cls': t['id']}
@@ -62,17 +71,13 @@ def gen_classes(rng):
 
 
 def gen_case(rng):
-    classes = gen_classes(rng)
     n_docs = rng.choice([1, 1, 2, 2, 3, 4])
+    classes = gen_classes(rng, n_docs)
     docs = [dict(classes=[], vals={}, children=[]) for _ in range(n_docs)]
     # classes with their inputs tend to live in one document
     home = {}
     for c in classes:
-        deps = [r['cls'] for r in c['meta_inputs'] if 'cls' in r]
-        if deps and rng.random() < 0.75:
-            home[c['id']] = home[deps[0]]
-        else:
-            home[c['id']] = rng.randrange(n_docs)
+        home[c['id']] = c.pop('doc')
         docs[home[c['id']]]['classes'].append(c['id'])
         if rng.random() < 0.08:
             docs[rng.randrange(n_docs)]['classes'].append(c['id'])
@@ -86,11 +91,11 @@ def gen_case(rng):
         for cid in d['classes']:
             for p in by_id[cid]['params']:
                 r = rng.random()
-                if p['cfg'] in d['vals'] or r < 0.08:
+                if p['cfg'] in d['vals'] or r < 0.03:
                     continue
-                if r < 0.2 and p['default'] is not None:
+                if r < 0.15 and p['default'] is not None:
                     continue
-                if r < 0.25:
+                if r < 0.18:
                     d['vals'][p['cfg']] = rand_value(rng, 2, rich=False, objects='plain')
                 else:
                     d['vals'][p['cfg']] = value_for_dtype(rng, p['dtype'], rich=rng.random() < 0.1, objects='plain')
@@ -146,17 +151,23 @@ def gen_case(rng):
     r = rng.random()
     if r < 0.6:
         all_cfg = sorted({p['cfg'] for c in classes for p in c['params']})
+        dt_of = {p['cfg']: p['dtype'] for c in classes for p in c['params']}
+
+        def ctx_val(k):
+            if rng.random() < 0.12:
+                return rng.choice([0, 1, 5, 'c', True, 2.5, None, [1]])
+            return value_for_dtype(rng, dt_of[k], rich=False, objects='plain')
         nss = sorted({ns for d in docs for _, ns in d['children'] if ns})
 
         def ctx_dict():
             cd = {}
             for k in all_cfg:
                 if rng.random() < 0.35:
-                    cd[k] = rand_value(rng, 1, rich=False, objects='plain') if rng.random() < 0.2 else rng.choice([0, 1, 5, 'c', True, 2.5, None, [1]])
+                    cd[k] = ctx_val(k)
             fn = {}
             for ns in nss + ['nsX', 'n', 'ns::zz']:
                 if rng.random() < 0.4:
-                    fn[ns] = {k: rng.choice([100, 'q', [2], False]) for k in all_cfg if rng.random() < 0.5}
+                    fn[ns] = {k: ctx_val(k) for k in all_cfg if rng.random() < 0.5}
             if fn:
                 cd['for_namespaces'] = fn
             return cd
@@ -285,7 +296,7 @@ def ref_chain(case):
             if c.get('abstract') or cid in excluded:
                 continue
             full = f'{ns}::{slug(c)}' if ns else slug(c)
-            params = {}
+            params, bound = {}, []
             for p in c['params']:
                 k = p['cfg']
                 if ns and ns in ns_over and k in ns_over[ns]:
@@ -303,9 +314,10 @@ def ref_chain(case):
                 if not py_isinstance(p['dtype'], v):
                     return ('error', f'type of parameter {k} of {full}')
                 params[p['name']] = v
+                bound.append((p, v, src == 'default'))
             if full in tasks and owner[full] != inst_no:
                 return ('error', f'conflict: {full} declared by two configs')
-            tasks[full] = dict(cls=cid, ns=ns, params=params)
+            tasks[full] = dict(cls=cid, ns=ns, params=params, bound=bound, slug=slug(c), data=c['data'])
             owner[full] = inst_no
     names = list(tasks)
     for full, t in tasks.items():
@@ -361,3 +373,41 @@ def ref_chain(case):
     if any(dfs(n) for n in names):
         return ('error', 'cycle')
     return tasks
+
+
+def ref_keys(tasks):
+    """Storage key of every task of a reference chain, by the frozen scheme."""
+    from . import oracle_frozen as fz
+    keys = {}
+
+    def key(n):
+        if n not in keys:
+            t = tasks[n]
+            ins = {k: key(v['task']) for k, v in t['inputs'].items() if 'task' in v}
+            keys[n] = fz.key_of(t['ns'], t['bound'], ins)
+        return keys[n]
+    for n in tasks:
+        key(n)
+    return keys
+
+
+def ref_value(tasks, name, memo=None):
+    """What the generated run() of `name` must return: the reference evaluation of the configuration."""
+    from . import oracle_frozen as fz
+    memo = {} if memo is None else memo
+    if name in memo:
+        return memo[name]
+    t = tasks[name]
+    ins = []
+    for k, v in t['inputs'].items():
+        if 'task' in v:
+            ins.append([k.split('::')[-1], ref_value(tasks, v['task'], memo)])
+        else:
+            ins.append([k.split('::')[-1], {'__default__': v['default']}])
+    ps = {}
+    for d, v, fd in sorted(t['bound'], key=lambda b: b[0]['name']):
+        txt = fz.param_text(d, v, fd)
+        if txt is not None:
+            ps[d['name']] = txt[len(d['name']) + 1:]
+    memo[name] = {'i': ins, 'p': ps, 't': t['slug']}
+    return memo[name]
